@@ -178,7 +178,17 @@ def register_edits(case, bu, ctx, rec, functions, order=None):
         p = e["p"]
         patch = bytes.fromhex(p["bytes"]) if "bytes" in p else make_patch(
             isa, p, eid, rec)
-        if e["op"] == "ins":
+        if e["op"] == "ins" and e.get("via") == "fnscope":
+            # same location through the declarative path: the entry block of
+            # one named function (stored with the pattern scopes, not with
+            # the per-block registrations)
+            from gtirb_rewriting import (AllFunctionsScope, BlockPosition,
+                                         FunctionPosition)
+            ctx.register_insert(
+                AllFunctionsScope(FunctionPosition.ENTRY,
+                                  BlockPosition.ENTRY,
+                                  {fn_by_name[e["fn"]].get_name()}), patch)
+        elif e["op"] == "ins":
             ctx.insert_at(blk, off, patch)
         else:
             ctx.replace_at(blk, off, offs[e["i"] + e["n"]] - off, patch)
